@@ -1,2 +1,3 @@
 pub mod deb822;
+pub mod relations;
 pub mod segmenter;
